@@ -12,7 +12,7 @@ RULE = ('cases = generated G-SEL spec with 1-3 design-variable nodes (continuous
         'model: an existing node stores clamp(value) and the corrected vector reports it, an absent node is inactive at '
         'the canonical value, set_des_var_value on a graph clamps the same way; non-trivial = a clamped value on a '
         'conditionally existing node; distinct by sha1(spec, encoder, vectors)')
-BUDGET = {'quick': 40, 'thorough': 1000}
+BUDGET = {'quick': 150, 'thorough': 4000}
 
 DISC_VALUES = [-5, -1, 0, 1, 2, 3, 4, 7, 0.5, 1.9, 2.49]
 CONT_OFFSETS = ['lo', 'hi', 'mid', 'lo-10', 'hi+10', 'lo+0.25', '-inf', '+inf']
@@ -92,7 +92,8 @@ def check_case(case):
                 if m['kind'] != 'dv':
                     continue
                 d0 = {'enc': enc, 'create': create, 'node': m['node'], 'linked': m['node'] in linked,
-                      'members': linked.get(m['node'])}
+                      'members': linked.get(m['node']), 'all_members': linked.get(m['node']),
+                      'present': sorted(n for n in (linked.get(m['node']) or []) if names is not None and n in names)}
                 if m['discrete']:
                     exp = clamp_disc(x[i], m['n_opts'])
                 else:
